@@ -6,6 +6,7 @@ EXPLANATION = ("Per-solve freshness (new wrapper, rebinding of the tracking list
                "partition constraints before the first send), effect closure of the per-solve roots (every accumulation is reset there, keyed, "
                "under an idempotence guard, or an identifier counter), and memo discipline of the four eval accessors and of the solve root's exits. "
                "Holds for every sequence of solves and edits because the rules bound what can survive from one solve to the next."
+               " R-ENTRY: the public entry unrolled on a problem object that holds the back-end of an earlier solve: every call constructs its own."
                ' Also: class constraints are regenerated unconditionally; no accessor memoises a solver-derived result; every registered leaf is re-assigned unconditionally after each successful solve.')
 TRUSTED = ["CPython ast", "call resolution and effect summaries of sa/effects.py"]
 ASSUMPTIONS = ["equality of returned numbers across solves is not decided (solver determinism)"]
